@@ -3,14 +3,14 @@ CONSTANTS
   CertKeys = {"k1","k2"}
   EncKeys = {"e1","e2"}
   Nonces = {"n1"}
-  Tokens = {"t1","t2"}
+  Tokens = {"t1"}
   AppStates = {"s1"}
   NodeIds = {"N1"}
-  Enabled = {"Authorize","Token","Remove","Fetch","Tamper","Regw"}
-  MaxGen = 2
-  CfgSW = TRUE
-  CfgNidl = FALSE
+  Enabled = {"Authorize","Remove","Nid","Prev","Rotate","Strip","Token"}
+  MaxGen = 3
+  CfgSW = FALSE
+  CfgNidl = TRUE
   CfgSO = FALSE
   CfgRmErr = FALSE
-INVARIANTS InvC06Step InvC06Once InvC06Gone
+INVARIANTS InvC10
 CHECK_DEADLOCK FALSE
